@@ -34,7 +34,7 @@ EM = dict(x86_64=62, i386=3, aarch64=183, ppc64=21, s390x=22, arm=40, riscv64=24
 
 
 def write_elf(path, segs, ps=4096, machine="x86_64", elfclass=64, be=False, nuls=(), notes=b"",
-              etype=4):
+              etype=4, phpad=0):
     """segs: list of dicts(pfn=, npages=, voff=<virt - phys>, filepages=<npages with file data, default all>)
     Page-aligned PT_LOAD segments; returns nothing."""
     E = ">" if be else "<"
@@ -43,6 +43,9 @@ def write_elf(path, segs, ps=4096, machine="x86_64", elfclass=64, be=False, nuls
         ehsz, phsz = 64, 56
     else:
         ehsz, phsz = 52, 32
+    # phpad: e_phentsize is that much larger than the program header structure (the ELF specification lets the file
+    # header declare the entry size); the extra bytes of every entry are junk
+    base_phsz, phsz = phsz, phsz + phpad
     hdr_end = ehsz + nph * phsz
     off = (hdr_end + len(notes) + ps - 1) // ps * ps
     ph = b""
@@ -71,6 +74,8 @@ def write_elf(path, segs, ps=4096, machine="x86_64", elfclass=64, be=False, nuls
         eh = ident + struct.pack(E + "HHIQQQIHHHHHH", etype, EM.get(machine, machine), 1, 0, ehsz, 0, 0, ehsz, phsz, nph, 0, 0, 0)
     else:
         eh = ident + struct.pack(E + "HHIIIIIHHHHHH", etype, EM.get(machine, machine), 1, 0, ehsz, 0, 0, ehsz, phsz, nph, 0, 0, 0)
+    if phpad:
+        ph = b"".join(ph[i:i + base_phsz] + b"\xee" * phpad for i in range(0, len(ph), base_phsz))
     with open(path, "wb") as f:
         f.write(eh + ph + notes)
         nulset = set(nuls)
